@@ -44,6 +44,12 @@ def make_data(job):
     y = base + peaks + rng.normal(0, sigma, n)
     if kind == 'lownoise':
         y = peaks + 0.2 + 0.002 * x + rng.normal(0, sigma, n)
+    if kind == 'offset':        # a large constant offset with little noise: numerically delicate for one-pass variance formulas
+        y = 1e6 + base + peaks + rng.normal(0, 0.01, n)
+    if kind == 'tiny':
+        y = 1e-6 * y
+    if kind == 'huge':
+        y = 1e6 * y
     if job.get('perturb'):
         y = y * (1 + np.random.default_rng(job['seed'] + 991).choice([-1.0, 1.0], n) * job['perturb'])
     return x, None, y
